@@ -142,6 +142,21 @@ def _p11d(ctx):
                 ctx.add('P11d', 'T-MUST', r, ok, 'a consumed value (space freed) is followed by a drain of the producer task list' if ok else
                         '%s consumes a value without notifying the producer list: a sink task parked on Full is never woken by this receive' % short_fn(r),
                         flavour=fl, where=g.where(c.nid), sub='%s#i%d' % ('cas' if c.op in CAS_OPS else 'store', g.nodes[c.nid].inst))
+    # P11h: releasing a pin is a state change a refused sink task waits for: every path from an unpin to a
+    # return passes a drain of the producer list (unless the stream ended: no live sender, nobody parked)
+    for r in roots:
+        g = ctx.graph(r, 'BCast')
+        x = g.x
+        unpins = [a for a in x.atoms_on('RefCnt.refcnt') if a.op in ('fetch_sub', 'store', 'swap')]
+        if not unpins:
+            continue
+        pn = _prod_notifies(g, x)
+        disc = {nid for (nid, si, rv) in x.aggs(r'TryRecvError::Disconnected$')}
+        for a in unpins:
+            ok = bool(pn) and not (x.reach_from(a.nid, blocked=pn | disc) & set(g.exits))
+            ctx.add('P11h', 'T-MUST', r, ok, 'after releasing a slot pin the receive drains the producer task list before it returns' if ok else
+                    '%s can release a slot pin and return (Empty / NotReady) without notifying the producer list: a sink task that was refused because of the pin stays parked although the slot is free, and with this consumer parked too nobody ever notifies it'
+                    % short_fn(r), flavour='BCast', where=g.where(a.nid), sub='unpin#i%d' % g.nodes[a.nid].inst)
     # P11c: poll result mapping: Ready(Some(v)) only after a successful commit
     for r in roots[:2]:
         for fl in FLAVOURS:
